@@ -838,6 +838,7 @@ def part_pad(chk, rng, only=None, states=None):
     if recs and not only:
         c2 = check.Check("C13", [chk.tier])
         c2.known = []
+        c2.violation = lambda key, detail, case: c2.violations.append((key, detail, None))     # no replay files for the control
         rec = copy.deepcopy(recs[0])
         sh = S[rec["shape"] - 1]
         f1 = rec["f1"][0] if sh["uhf"] else rec["f1"]
